@@ -8,6 +8,7 @@ import Driver.CdcnDrv
 import Driver.QDrv
 import Driver.FacadeDrv
 import Driver.HeapDrv
+import Driver.IndepDrv
 open Lean Drv
 
 def handle (line : String) : String :=
@@ -35,6 +36,8 @@ def handle (line : String) : String :=
     | "stress" => stressLine j
     | "facade" => facadeLine j
     | "heap" => heapLine j
+    | "registry" => registryLine j
+    | "indep" => indepLine j
     | "qmeta" => verdict true true "meta" ""
     | k => verdict false true "bad-kind" k
 
